@@ -96,6 +96,9 @@ M = [
  ("g-name-option-interpolated", ["C10"], IT, '                let name = field.member().to_string();\n                let name = name.strip_prefix("r#").unwrap_or(&name);', '                let name = field.member().to_string();\n                let name = name.strip_prefix("r#");'),
  ("r-eq-checker-sized", ["C12:TP-unsized-helper", "C20:TP-unsized-helper"], CO, "fn _eq<T: ::core::cmp::Eq + ?::core::marker::Sized>(_this: &T) { }", "fn _eq<T: ::core::cmp::Eq>(_this: &T) { }"),
  ("r-debug-single-ref", ["C12:TP-unsized-field", "C20:TP-unsized-field"], IT, "quote!(&&self.#member)", "quote!(&self.#member)"),
+ ("g-bound-dotdot-negated", ["C04:DM-bound-syntax"], BO, "        if input.peek(Token![..]) {", "        if !input.peek(Token![..]) {"),
+ ("g-bound-pred-not-consumed", ["C04:DM-bound-syntax"], BO, "                input.advance_to(&fork);\n", ""),
+ ("g-bound-type-error-swallowed", ["C04:DM-bound-syntax"], BO, "                } else {\n                    Err(e)\n                }", "                } else {\n                    Ok(Self::Default(Default::default()))\n                }"),
  # benign variants: every listed property must stay silent
  ("benign-eq-checker-impl-trait", [], CO, "fn _eq<T: ::core::cmp::Eq + ?::core::marker::Sized>(_this: &T) { }", "fn _eq(_this: &(impl ::core::cmp::Eq + ?::core::marker::Sized)) { }"),
  ("benign-rename-local", [], IT, "let use_bounds = e.push_bounds_to(&mut wcb);\n    let mut ctor_args = Vec::new();\n    let mut clone_from_exprs = Vec::new();", "let use_bounds = e.push_bounds_to(&mut wcb);\n    let mut ctor_args = Vec::new();\n    let mut clone_from_exprs = Vec::new();\n    let _unused_marker = 0;"),
